@@ -39,9 +39,16 @@ type spec struct {
 	salt   []byte
 	iter   int
 	tlsVer uint16
+	ws     int    // index into wsVariants: white space the reference servers put around / into their challenges
 	ext    string // extensions the reference SCRAM server appends to its server-first-message
 	prefix string // put in front of the server-first-message (mandatory extension "m=..,")
 }
+
+// white space (SP, HT, CR, LF) at the beginning / end of a decoded challenge; the third element goes inside
+var wsVariants = [][3]string{{"", "", ""}, {" ", "", ""}, {"", " ", ""}, {"\t", "\t", ""}, {"\r\n", "", ""}, {"", "\r\n", ""},
+	{" \t", "\n", " \t "}, {"", "", " "}, {"\n", " ", "\r"}, {"  ", "\t\n", ""}}
+
+func (sp *spec) deco(m string) string { w := wsVariants[sp.ws%len(wsVariants)]; return w[0] + m + w[1] }
 
 type reply struct {
 	code int
@@ -94,12 +101,12 @@ func (s *ref) reply(k int, line string) reply {
 	case "login":
 		switch k {
 		case 0:
-			return reply{334, saslx.B64([]byte("Username:"))}
+			return reply{334, saslx.B64([]byte(s.sp.deco("Username:")))}
 		case 1:
 			if string(dec()) != s.sp.user {
 				return fail
 			}
-			return reply{334, saslx.B64([]byte("Password:"))}
+			return reply{334, saslx.B64([]byte(s.sp.deco("Password:")))}
 		default:
 			if string(dec()) == s.secret {
 				return okr()
@@ -108,7 +115,8 @@ func (s *ref) reply(k int, line string) reply {
 		}
 	case "cram":
 		if k == 0 {
-			s.chal = saslx.CramChallenge(fmt.Sprintf("%d.%d", len(s.sp.user), len(s.secret)))
+			// the challenge as ISSUED (with its white space) is what the verifier computes HMAC-MD5 over
+			s.chal = s.sp.deco(saslx.CramChallenge(fmt.Sprintf("%d.%d%s", len(s.sp.user), len(s.secret), wsVariants[s.sp.ws%len(wsVariants)][2])))
 			return reply{334, saslx.B64([]byte(s.chal))}
 		}
 		if u, ok := saslx.VerifyCram(s.chal, dec(), func(string) (string, bool) { return s.secret, true }); ok && u == s.sp.user {
@@ -120,7 +128,7 @@ func (s *ref) reply(k int, line string) reply {
 			if u, t, err := saslx.ParseXOAuth2(arg()); err == nil && u == s.sp.user && t == s.secret {
 				return okr()
 			}
-			return reply{334, saslx.B64([]byte(`{"status":"401"}`))}
+			return reply{334, saslx.B64([]byte(s.sp.deco(`{"status":"401"}`)))}
 		}
 		return fail
 	default:
@@ -292,6 +300,14 @@ func runX(r *hx.Run, c hx.Case) {
 	}
 	if len(c.Args) > 11 {
 		sp.prefix = string(hx.UnHex(c.Args[11]))
+	}
+	if len(c.Args) > 12 {
+		sp.ws, _ = strconv.Atoi(c.Args[12])
+		if isScram(sp.mech) && sp.ws > 0 {
+			// SCRAM: the white space rides at the end of an extension of the server-first-message (part of the AuthMessage)
+			w := wsVariants[sp.ws%len(wsVariants)]
+			sp.ext += ",x=" + w[2] + "a" + w[1]
+		}
 	}
 	scArg := hx.Hex([]byte(strings.Join(c.Args, " ")))
 	var cst, sst *tls.ConnectionState
@@ -714,7 +730,8 @@ func Run(r *hx.Run, replay []hx.Case) {
 			}
 		}
 		runCase(r, hx.Case{ID: r.NewID(), Kind: "x", Args: []string{m, right, hx.Hex([]byte(user)), hx.Hex([]byte(secret)), hx.Hex([]byte(ident)),
-			hx.Hex(randBytes(r, 1+r.Rng.Intn(64))), strconv.Itoa(iter), strconv.Itoa(ver), retry, "1", hx.Hex([]byte(ext)), hx.Hex([]byte(prefix))}})
+			hx.Hex(randBytes(r, 1+r.Rng.Intn(64))), strconv.Itoa(iter), strconv.Itoa(ver), retry, "1", hx.Hex([]byte(ext)), hx.Hex([]byte(prefix)),
+			strconv.Itoa([]int{0, i % len(wsVariants)}[i/8%2])}})
 	}
 	// reuse of one Auth value for 2 and 3 exchanges (new connection each): every mechanism x first exchange(s)
 	// {completed, rejected with 535 / 454 at step k, connection dropped at step k, for every step k} x {2, 3 exchanges}
